@@ -466,8 +466,17 @@ func svcJSON(id, mark string) string {
 		s += `,"description":` + n
 	}
 
+	// markers "w..." : a member full of large numbers, whose canonical spelling (all 21 digits) is much longer than the
+	// spelling a client may choose (1e20)
+	if strings.HasPrefix(mark, "w") {
+		s += `,"weights":[` + strings.TrimSuffix(strings.Repeat(BigNumber+",", 40), ",") + `]`
+	}
+
 	return s + "}"
 }
+
+// BigNumber is 1e20 in canonical spelling.
+const BigNumber = "100000000000000000000"
 
 // SvcMark extracts the marker from a service entry (internal or external form), whatever shape its endpoint has, and
 // checks that EVERY member of the entry is what svcJSON generated for (id, marker). An entry that deviates in any
